@@ -6,7 +6,7 @@ from hypothesis import strategies as st
 from vlib import containers, disc, runtool
 from vlib.harness import CheckBase, Verdict
 
-SLOTS_INTERESTING = [0, 1, 2, 3, 254, 255, 256, 509, 510]
+SLOTS_INTERESTING = [0, 1, 2, 3, 254, 255, 256, 509, 510, 14, 15, 16, 30, 31, 32, 47, 495, 496]
 
 
 def blank_surface(tag, tracks, spt):
@@ -82,7 +82,7 @@ class C04(CheckBase):
     variants = ("dbg", "asan")
     rule = ("generated marker discs (valid catalogue on every surface, every other sector self-describing "
             "'<side/slot Ttt sss #lba>') in .ssd/.sdd (1 side), .dsd/.ddd (interleaved, 2 sides) and .mmb (1-6 "
-            "populated slots from {0,1,2,3,254,255,256,509,510,random}, status bytes 00/0F/F0/FF) containers, "
+            "populated slots from {0-3, 14-16, 30-32, 47 (table-sector boundaries), 254-256, 495, 496, 509, 510, random}, status bytes 00/0F/F0/FF) containers, "
             "35/40/80 tracks x 10/18 sectors, optionally truncated, incl. surfaces that carry no catalogue at all (blank "
             "side 1 of an 80-track .dsd, MMB slot marked present but holding junk); for each attached drive dump-sector on tracks "
             "{0,1,mid,last} x all sectors, out-of-range track/sector, reads past a truncation point, type --binary "
